@@ -53,6 +53,7 @@ def main(argv=None):
     ap.add_argument("--replay")
     ap.add_argument("--only", help="substring filter on partition names (debugging)")
     ap.add_argument("--jobs", type=int, default=0)
+    ap.add_argument("--cap", type=float, default=0.0, help="cap per-partition timeouts (debugging)")
     args = ap.parse_args(argv)
     if args.replay:
         return do_replay(args.replay)
@@ -90,6 +91,9 @@ def main(argv=None):
         return 3
     if args.only:
         parts = [p for p in parts if args.only in p.name]
+    if args.cap:
+        for p in parts:
+            p.timeout = min(p.timeout, args.cap)
 
     done = [0]
 
